@@ -138,8 +138,13 @@ def c07(tier):
             kw.update(mults=(0, 1, 2), maxmult=3)
         if g in ("dw", "uw"):
             kw.update(weights="WeightSet2")
-        n = 2 if tier == "thorough" or g in ("dn", "un") else 1
+        n = 2 if g in ("dn", "un") or (tier == "thorough" and g not in ("dl", "ul")) else 1
         out.append(S("%s%dbad" % (g, n), g, n, **kw))
+        if tier == "thorough" and g in ("dl", "ul"):
+            # two vertices with a single non-default label (the label alphabet does not matter for rejections)
+            kw2 = dict(kw)
+            kw2.update(labels=(1,), reps=1, trace=None, maxcopies=1, forces=F)
+            out.append(S("%s2bad" % g, g, 2, **kw2))
     return out
 
 
